@@ -13,8 +13,19 @@
     queue and is answered at once;
   * `c11_stays_asleep`: no broker packet and no client packet other than CONNECT, PINGREQ handling
     or DISCONNECT changes the state of a sleeping client (`c11_asleep_mq`).
+  * **all runs** — `c11_asleep_runs_are_silent`: from ANY state in which the client is asleep, through
+    ANY sequence of timed events none of which is the client's PINGREQ / CONNECT / DISCONNECT or the
+    CONNACK of an unfinished connect exchange (client packets of every other kind, malformed datagrams,
+    broker packets, broker EOF / garbage, gateway shutdown, any passage of time with every timer firing
+    on the way), NO datagram is put on the wire and the client is still asleep; built from
+    `c11_silent_on_client_packets`, `c11_silent_on_broker_packets`, `c11_silent_on_timers` (every event
+    kind, all states; `Lemmas/GwAsleep.lean`) and `c11_step_quiet` (one whole step incl. timers, the
+    end of the session and the instrumentation). With `c11_wake` (what a PINGREQ then delivers) this is
+    the property for every sleep cycle; what is NOT proved is that the queue holds exactly the packets
+    "it would have sent" (that is the monitor's and the correspondence's business).
   The monitor `Spec.c11` checks the whole-session statement on implementation traces.
 -/
+import Bisquitt.Lemmas.GwAsleep
 import Bisquitt.Lemmas.GwSt
 import Bisquitt.Spec.Gateway
 
@@ -120,5 +131,265 @@ theorem c11_repeated_sleep_request (g : Gw) (d : UInt16) (h : g.st = .asleep) :
 example : (((Gw.init ⟨false, none, none, 10, 2, []⟩ 1 10).setSt .asleep |>.snSend (.pubrec 1) |>.snSend (.pubrec 2)
       ).handlePingreq.outs.map (·.2)) =
     [Out.sn (encode .pingresp), Out.sn (encode (.pubrec 2)), Out.sn (encode (.pubrec 1))] := by decide
+
+end Bisquitt.Gw
+
+/-! ## every event, every timer, every run while the client is asleep -/
+
+namespace Bisquitt.Gw
+open Bisquitt Gw
+
+/-- the client packets that end or interrupt a sleep: they are answered (C11: `c11_wake`,
+    `c11_repeated_sleep_request`; CONNECT: C07) -/
+def wakesOrAnswers : Pkt → Bool
+  | .pingreq _ => true
+  | .connect .. => true
+  | .disconnect _ => true
+  | _ => false
+
+/-- **C11 (every client packet, every state).** While the client is asleep, whatever datagram it sends
+    other than PINGREQ / CONNECT / DISCONNECT puts nothing on the wire towards it — every reply is
+    queued — and leaves it asleep. -/
+theorem c11_silent_on_client_packets (g : Gw) (p : Pkt) (h : g.st = .asleep) (hp : wakesOrAnswers p = false) :
+    snOuts (g.handleSn p) = snOuts g ∧ (g.handleSn p).st = .asleep := by
+  refine ⟨?_, ?_⟩
+  · unfold handleSn
+    split
+    · simp
+    · split
+      · simp [wakesOrAnswers] at hp
+      · split
+        · exact snOuts_connAuth _ _ _ _ _ _ h
+        · rfl
+      · split
+        · exact snOuts_connWillTopic _ _ _ _ _ _ _ h
+        · rfl
+      · split
+        · exact snOuts_connWillMsg _ _ _ _ _
+        · rfl
+      · exact snOuts_handleRegister _ _ _ h
+      · exact snOuts_handleClientPublish _ _ _ _ _ _ _ _
+      · simp
+      · exact snOuts_handleSubscribe _ _ _ _ _ _ _ h
+      · exact snOuts_handleUnsubscribe _ _ _ _ _
+      · simp [wakesOrAnswers] at hp
+      · simp [wakesOrAnswers] at hp
+      · split
+        · split
+          · exact snOuts_bpRegack _ _ _ _ _ _ _ h
+          · rfl
+        · rfl
+      · split
+        · split
+          · split
+            · rfl
+            · split
+              · simp
+              · exact snOuts_proceedMQ _ _ _ _
+          · rfl
+        · rfl
+      · split
+        · split
+          · split
+            · rfl
+            · exact snOuts_proceedMQ _ _ _ _
+          · rfl
+        · rfl
+      · split
+        · split
+          · split
+            · rfl
+            · exact snOuts_proceedMQ _ _ _ _
+          · rfl
+        · rfl
+      · simp
+  · unfold handleSn
+    split
+    · simp [h]
+    · split <;> (try split) <;> (try split) <;> (try split) <;> (try split) <;> simp_all [wakesOrAnswers]
+
+/-- **C11 (every broker packet, every state).** While the client is asleep no packet of the broker other
+    than the CONNACK of a CONNECT exchange left unfinished puts a datagram on the wire. -/
+theorem c11_silent_on_broker_packets (g : Gw) (p : MqPkt) (h : g.st = .asleep) (hp : ∀ rc, p ≠ .connack rc) :
+    snOuts (g.handleMq p) = snOuts g := by
+  unfold handleMq
+  split
+  · exact absurd rfl (hp _)
+  · split
+    · split
+      · rw [snOuts_snSend _ _ _ (by simpa using h)]; simp
+      · rfl
+    · rfl
+  · exact snOuts_snSend _ _ _ h
+  · exact snOuts_snSend _ _ _ h
+  · split
+    · split
+      · split
+        · split
+          · rw [snOuts_snSend _ _ _ (by simpa using h)]; simp
+          · rw [snOuts_snSend _ _ _ (by simpa using h)]; simp
+        · simp
+      · rfl
+    · rfl
+  · exact snOuts_snSend _ _ _ h
+  · split
+    · rfl
+    · exact snOuts_snSend _ _ _ h
+  · exact snOuts_handleBrokerPublish _ _ _ _ _ _ _ h
+  · split
+    · split
+      · split
+        · rfl
+        · exact snOuts_proceedSN _ _ _ _ h
+      · rfl
+    · rfl
+  · simp
+
+/-- **C11 (every timer, every state).** No timer — a retry of a gateway exchange (suspended while the
+    client sleeps), an expiring client exchange, the sleep pinger — sends the sleeping client anything. -/
+theorem c11_silent_on_timers (g : Gw) (d : Due) (h : g.st = .asleep) : snOuts (g.fireDue d) = snOuts g := by
+  unfold fireDue
+  split
+  · unfold fireTx
+    split
+    · rw [snOuts_txExpire _ _ (by simpa using h)]; rfl
+    · rfl
+  · unfold firePing; simp; rfl
+  · rfl
+
+/-! ### whole steps and whole runs while asleep -/
+
+/-- the client stays asleep and nothing is put on the wire towards it -/
+def StaysQuiet (g g' : Gw) : Prop := g'.st = .asleep ∧ snOuts g' = snOuts g
+
+theorem StaysQuiet.refl {g : Gw} (h : g.st = .asleep) : StaysQuiet g g := ⟨h, rfl⟩
+theorem StaysQuiet.trans {a b c : Gw} (h1 : StaysQuiet a b) (h2 : StaysQuiet b c) : StaysQuiet a c :=
+  ⟨h2.1, h2.2.trans h1.2⟩
+
+theorem retryExpire_st (g : Gw) (t : Tx) : (g.retryExpire t).st = g.st := by
+  unfold retryExpire
+  split
+  · split
+    · rfl
+    · split
+      · rfl
+      · split
+        · simp
+        · split <;> simp
+  · rfl
+
+theorem txExpire_st (g : Gw) (t : Tx) : (g.txExpire t).st = g.st := by
+  unfold txExpire
+  split
+  · split <;> simp
+  · split <;> simp
+  · split <;> simp
+  · exact retryExpire_st g t
+
+theorem fireDue_quiet (g : Gw) (d : Due) (h : g.st = .asleep) : StaysQuiet g (g.fireDue d) := by
+  refine ⟨?_, c11_silent_on_timers g d h⟩
+  unfold fireDue
+  split
+  · unfold fireTx; split
+    · rw [txExpire_st]; exact h
+    · exact h
+  · unfold firePing; simpa using h
+  · exact h
+
+theorem finishSession_quiet (g : Gw) (h : g.st = .asleep) : StaysQuiet g g.finishSession := by
+  unfold finishSession
+  split
+  · split
+    · exact StaysQuiet.refl h
+    · unfold shutdownDisconnect stopTimers emitEnd setNow
+      have h1 : ¬ (g.st = .active ∨ g.st = .awake) := by rw [h]; decide
+      simp only [h1, if_false]
+      exact ⟨h, by simp [snOuts, emit, isSnOut]⟩
+  · exact StaysQuiet.refl h
+
+theorem setNow_quiet (g : Gw) (t : Nat) (h : g.st = .asleep) : StaysQuiet g (g.setNow t) := ⟨h, rfl⟩
+
+theorem advance_quiet : ∀ (fuel : Nat) (g : Gw) (t : Nat), g.st = .asleep → StaysQuiet g (advance fuel g t) := by
+  intro fuel
+  induction fuel with
+  | zero => intro g t h; exact setNow_quiet g _ h
+  | succ n ih =>
+    intro g t h
+    unfold advance
+    split
+    · exact (finishSession_quiet g h).trans (setNow_quiet _ _ (finishSession_quiet g h).1)
+    · split
+      · rename_i d _
+        have q1 := fireDue_quiet g d h
+        have q2 := finishSession_quiet _ q1.1
+        exact (q1.trans q2).trans (ih _ t q2.1)
+      · exact setNow_quiet g _ h
+
+/-- events that neither wake the client nor belong to its waking up -/
+def quietEvent : Event → Bool
+  | .sn bytes => match decode (bytes.take Gen.MaxPacketLen) with
+    | .ok (_, p) => !wakesOrAnswers p
+    | _ => true
+  | .mq (.connack _) => false
+  | _ => true
+
+theorem handleEvent_quiet (g : Gw) (ev : Event) (h : g.st = .asleep) (hq : quietEvent ev = true) :
+    StaysQuiet g (g.handleEvent ev) := by
+  unfold handleEvent
+  split
+  · rename_i bytes
+    split
+    · rename_i hd p hdec
+      have hp : wakesOrAnswers p = false := by
+        simp only [quietEvent, hdec] at hq
+        simpa using hq
+      exact ⟨(c11_silent_on_client_packets g p h hp).2, (c11_silent_on_client_packets g p h hp).1⟩
+    · exact ⟨by simpa using h, by simp⟩
+  · rename_i p
+    have hp : ∀ rc, p ≠ .connack rc := by
+      intro rc e; rw [e] at hq; simp [quietEvent] at hq
+    exact ⟨c11_asleep_mq g p h hp, c11_silent_on_broker_packets g p h hp⟩
+  · exact ⟨by simpa using h, by simp⟩
+  · split <;> exact ⟨by simpa using h, by simp⟩
+  · exact ⟨by simpa using h, by simp⟩
+  · exact StaysQuiet.refl h
+
+theorem sample_quiet (g : Gw) (h : g.st = .asleep) : StaysQuiet g g.sample := by
+  unfold sample sampleBuf sampleReg sampleState
+  refine ⟨?_, ?_⟩
+  · split <;> split <;> split <;> simpa [emit] using h
+  · split <;> split <;> split <;> simp [snOuts, emit, isSnOut]
+
+/-- **C11 (one whole step of the session, timers included).** -/
+theorem c11_step_quiet (g : Gw) (t : Nat) (ev : Event) (h : g.st = .asleep) (hq : quietEvent ev = true) :
+    StaysQuiet g (g.step t ev) := by
+  unfold step stepCore deliver
+  have q1 := advance_quiet 100000 g t h
+  split
+  · exact (q1.trans (finishSession_quiet _ q1.1)).trans (sample_quiet _ (finishSession_quiet _ q1.1).1)
+  · have q2 := handleEvent_quiet _ ev q1.1 hq
+    have q3 := advance_quiet 100000 _ t q2.1
+    have q4 := finishSession_quiet _ q3.1
+    exact (((q1.trans q2).trans q3).trans q4).trans (sample_quiet _ q4.1)
+
+/-- **C11 (ALL runs).** From ANY state in which the client is asleep, through ANY sequence of timed
+    events none of which is a PINGREQ / CONNECT / DISCONNECT of the client or the CONNACK of an
+    unfinished connect exchange — client packets of every other kind, malformed datagrams, broker
+    packets, broker EOF or garbage, gateway shutdown, any passage of time with every timer that fires
+    on the way — the gateway puts NO datagram on the wire and the client is still treated as asleep. -/
+theorem c11_asleep_runs_are_silent (g : Gw) (evs : List (Nat × Event)) (h : g.st = .asleep)
+    (hq : ∀ e ∈ evs, quietEvent e.2 = true) : StaysQuiet g (g.run evs) := by
+  unfold run
+  induction evs generalizing g with
+  | nil => exact StaysQuiet.refl h
+  | cons e rest ih =>
+    simp only [List.foldl_cons]
+    have q1 := c11_step_quiet g e.1 e.2 h (hq e (by simp))
+    exact q1.trans (ih _ q1.1 (fun x hx => hq x (by simp [hx])))
+
+/-- non-vacuity: a sleeping session with a queued packet, then a REGISTER of the client, a broker
+    PUBLISH and three seconds of silence: nothing goes out, the client is still asleep -/
+example : quietEvent (.sn (encode (.register 0 7 [0x61]))) = true ∧ quietEvent (.mq (.publish false 1 false 3 [0x61] [0x62])) = true ∧
+    quietEvent .tick = true ∧ quietEvent (.sn (encode (.pingreq [0x63]))) = false := by decide
 
 end Bisquitt.Gw
